@@ -13,8 +13,8 @@ PROP = {'title': 'Textual and binary encodings round-trip losslessly',
                'strings up to length 6 (quick 4) over one representative per UTF-8 length class plus structured long strings '
                '(a^i X^k a^j, X^n, cyclic mixes) instead of random strings up to 40; sanitizer aborts are attributed to the announced case',
  'binaries': [{'name': 'C15',
-               'sources': ['harness/C15.cpp', 'harness/C15_text.cpp', 'harness/C15_conv.cpp', 'harness/C15_locale.cpp', 'harness/C15_state.cpp', 'harness/C15_env.cpp'],
-               'libs': ['core'],
+               'sources': ['harness/C15.cpp', 'harness/C15_text.cpp', 'harness/C15_conv.cpp', 'harness/C15_locale.cpp', 'harness/C15_state.cpp', 'harness/C15_env.cpp', 'harness/C15_loglevel.cpp'],
+               'libs': ['core', 'log'],
                'flavour': 'asan'}],
  'deadline': {'quick': 300, 'thorough': 1500},
  'rule': 'nested loops over explicit domains. Binary: every bit pattern of the 8/16-bit types, for 32/64-bit integers, wchar_t, char32_t, '
